@@ -220,12 +220,14 @@ func (r *blobReader) Read(buf []byte) (int, error) {
 	n, err := r.r.Read(buf)
 	r.n += int64(n)
 	r.digester.Write(buf[:n])
+	if r.n > r.desc.Size {
+		// Fail early when the blob is too big; we can do that even
+		// when we're not verifying for other use cases, and
+		// whether or not the data came with an error (a reader
+		// may return its last bytes together with io.EOF).
+		return n, fmt.Errorf("blob size exceeds content length %d: %w", r.desc.Size, ociregistry.ErrSizeInvalid)
+	}
 	if err == nil {
-		if r.n > r.desc.Size {
-			// Fail early when the blob is too big; we can do that even
-			// when we're not verifying for other use cases.
-			return n, fmt.Errorf("blob size exceeds content length %d: %w", r.desc.Size, ociregistry.ErrSizeInvalid)
-		}
 		return n, nil
 	}
 	if err != io.EOF {
